@@ -39,6 +39,7 @@ type scanSpec struct {
 	Workers     int               `json:"workers,omitempty"`
 	Cache       map[string]string `json:"arp_cache,omitempty"` // ip -> mac
 	NoGateway   bool              `json:"no_gateway_mac,omitempty"`
+	SlowErrUs   int               `json:"error_sink_delay_us,omitempty"` // the error consumer (logger) is slow
 	RandSeed    int64             `json:"rand_seed"`
 }
 
@@ -255,6 +256,10 @@ func runScanDelay(run *vlab.Run, ctx context.Context, b *builtScan, limit, exitD
 	{
 		real, _ := log.NewLogger(&bytes.Buffer{}, "rig")
 		logger.inner = real
+	}
+	if c.SlowErrUs > 0 {
+		d := time.Duration(c.SlowErrUs) * time.Microsecond
+		logger.onError = func(int) { time.Sleep(d) }
 	}
 	conf := newEngineConfig(withLogger(logger), withScanRange(b.rng), withExitDelay(exitDelay))
 	var rw *recRW
